@@ -81,6 +81,68 @@ def probe_programs(pt, seed):
         return [sha(pt.compileTeal(prog, pt.Mode.Application, version=v)) for _ in range(3)]
     for v in (6, 8):
         out.append(("same_object_v%d" % v, (lambda v=v: same_object_twice(v))))
+    def router_fail_then_ok():
+        """A fresh router compiled at v7, and an identical router whose first compile_program (v6) fails in the clear-state program
+        after the approval program was built, then compiled at v7: the same TEAL."""
+        def mk():
+            def mkm(i):
+                def f(a: pt.abi.Uint64, *, output: pt.abi.Uint64):
+                    t = pt.ScratchVar(pt.TealType.uint64)
+                    return pt.Seq(t.store(a.get() * pt.Int(i + 2)), output.set(t.load()))
+                f.__name__ = "fm%d" % i
+                return pt.ABIReturnSubroutine(f)
+            r = pt.Router("f", pt.BareCallActions(no_op=pt.OnCompleteAction.create_only(pt.Approve())),
+                          clear_state=pt.Seq(pt.Pop(pt.Sha3_256(pt.Bytes("x"))), pt.Approve()))
+            for i in range(2):
+                r.add_method_handler(mkm(i))
+            return r
+        a = mk().compile_program(version=7)
+        rb = mk()
+        try:
+            rb.compile_program(version=6)
+            failed = "no"
+        except pt.TealInputError:
+            failed = "yes"
+        b = rb.compile_program(version=7)
+        c = rb.compile_program(version=7, optimize=pt.OptimizeOptions(frame_pointers=False))
+        d = mk().compile_program(version=7, optimize=pt.OptimizeOptions(frame_pointers=False))
+        assert failed == "yes"
+        return [sha(a[0]) + sha(a[1]), sha(b[0]) + sha(b[1]), sha(c[0]) + sha(c[1]), sha(d[0]) + sha(d[1])]
+    out.append(("router_fail_then_ok", router_fail_then_ok))
+
+    def method_call_probe(v):
+        acct, asset, app = pt.abi.Account(), pt.abi.Asset(), pt.abi.Application()
+        x, s = pt.abi.Uint64(), pt.abi.String()
+        prog = pt.Seq(
+            x.set(7), s.set("hi"),
+            pt.InnerTxnBuilder.ExecuteMethodCall(
+                app_id=pt.Int(5), method_signature="m(uint64,string,pay)void",
+                args=[x, s, {pt.TxnField.type_enum: pt.TxnType.Payment, pt.TxnField.amount: pt.Int(1), pt.TxnField.receiver: pt.Txn.sender(), pt.TxnField.fee: pt.Int(0)}],
+                extra_fields={pt.TxnField.fee: pt.Int(0), pt.TxnField.note: pt.Bytes("n"), pt.TxnField.on_completion: pt.OnComplete.NoOp,
+                              pt.TxnField.rekey_to: pt.Global.zero_address(), pt.TxnField.lease: pt.Bytes("l" * 32)}),
+            pt.InnerTxnBuilder.Execute({pt.TxnField.type_enum: pt.TxnType.AssetTransfer, pt.TxnField.xfer_asset: pt.Int(3), pt.TxnField.asset_amount: pt.Int(1),
+                                        pt.TxnField.asset_receiver: pt.Txn.sender(), pt.TxnField.note: pt.Bytes("z"), pt.TxnField.fee: pt.Int(0)}),
+            pt.Int(1))
+        return pt.compileTeal(prog, pt.Mode.Application, version=v)
+    for v in (6, 8):
+        out.append(("method_call_v%d" % v, (lambda v=v: method_call_probe(v))))
+
+    def catalogue_probe():
+        """A seed-chosen slice of the constructor catalogue (every family of constructs, so set/dict iteration anywhere shows)."""
+        from vlib import opcatalog
+        E = opcatalog.entries(pt)
+        picks = rng.sample(range(len(E)), 60)
+        hh = hashlib.sha256()
+        for i in sorted(picks):
+            ent = E[i]
+            for v in (6, 10):
+                try:
+                    t = pt.compileTeal(opcatalog.wrap(pt, ent), pt.Mode.Application, version=v, assembleConstants=(i % 2 == 0))
+                except Exception as e:
+                    t = "EXC " + type(e).__name__
+                hh.update(t.encode())
+        return hh.hexdigest()[:20]
+    out.append(("catalogue_slice", catalogue_probe))
     out.append(("template", lambda: pt.compileTeal(pt.Seq(pt.Pop(pt.Tmpl.Bytes("TMPL_K")), pt.Tmpl.Int("TMPL_N")), pt.Mode.Signature, version=6, assembleConstants=True)))
     return out
 
